@@ -65,7 +65,7 @@ class Check(AddCheck):
                 return 'F%d' % k[0]
             for j in range(4):
                 doc = gens.random_story_message(rng, sids, 500 + j, fresh)
-                yield {'ro': state, 'msg': to_text(doc), 'meta': {'cls': doc[3][0].tag, 'n': len(sids), 'layout': 'history'}}
+                yield {'ro': state, 'msg': to_text(doc), 'meta': {'cls': doc[3].tag, 'n': len(sids), 'layout': 'history'}}
 
     def obs(self, o):
         if 'classerr' in o:
